@@ -1021,15 +1021,17 @@ def run_multi_vs_cross_cca(case, seed, feats):
     if errs:
         return dict(violations=errs, outcome="violation")
     rho = ref_cross_spectrum(pre(X, dx, case), pre(Y, dy, case), 0.0, 0.0)[:k]
-    C.direct("canonical_correlations", a["corr"], b["corr"], TOL_DIFF)
-    # independent anchor: both must be the textbook canonical correlations (svd of Cxx^-1/2 Cxy Cyy^-1/2)
-    C.direct("canonical_correlations_multi_vs_textbook", a["corr"], rho, TOL_DIFF)
-    C.direct("canonical_correlations_cross_vs_textbook", b["corr"], rho, TOL_DIFF)
-    # multi.CCA's own report of them: the generalised eigenvalues (its eps=1e-6 ridge moves them by O(eps / smallest variance))
-    # bound: C w = lambda (B + eps I) w  =>  |lambda' - lambda| <= lambda * eps / lambda_min(B), B = blockdiag(Cxx, Cyy)
+    # multi.CCA regularises its generalised eigenproblem with a ridge eps=1e-6 (constructor default): C w = lambda (B + eps I) w
+    # moves eigenvalues and weights by at most O(eps / lambda_min(B)), B = blockdiag(Cxx, Cyy). Everything that comes out of
+    # the multi-set route is therefore compared within that bound (it is 1e-7 or less unless a field has a tiny variance).
     Mx, My = pre(X, dx, case), pre(Y, dy, case)
     lam_min = min(np.linalg.eigvalsh(Mx.T @ Mx / (Mx.shape[0] - 1)).min(), np.linalg.eigvalsh(My.T @ My / (My.shape[0] - 1)).min())
-    C.direct("eigenvalues_multi_vs_textbook", a["eig"], rho, 2 * 1e-6 / max(lam_min, 1e-12) + 1e-9)
+    ridge = 2 * 1e-6 / max(lam_min, 1e-12) + 1e-9
+    C.direct("canonical_correlations", a["corr"], b["corr"], max(TOL_DIFF, ridge))
+    # independent anchor: both must be the textbook canonical correlations (svd of Cxx^-1/2 Cxy Cyy^-1/2)
+    C.direct("canonical_correlations_multi_vs_textbook", a["corr"], rho, max(TOL_DIFF, ridge))
+    C.direct("canonical_correlations_cross_vs_textbook", b["corr"], rho, TOL_DIFF)
+    C.direct("eigenvalues_multi_vs_textbook", a["eig"], rho, ridge)
     return _done(C, dict(k=k, rho1=float(rho[0])))
 
 
